@@ -350,6 +350,46 @@ func c17Variants(base *c17Spec, bi int) []c17Variant {
 		c.Decls = append(c.Decls, lx1(st.mode, st.file, "fault", "@macro CA = "+freshPat()+" CB"), lx1(st.mode, st.file, "fault", "@macro CB = CC | 'q'"), lx1(st.mode, st.file, "fault", "@macro CC = (CA)"), lx1(st.mode, st.file, "use", "CU = "+freshPat()+" CC"))
 		out = append(out, c17Variant{Name: name("macro-cycle-3@%s", st.name), Spec: c, Fault: len(c.Decls) - 4, Fault2: -2})
 	}
+	// references to a name of the wrong kind: every kind of reference x every
+	// kind of declared name (the legal pairs are what the bases use)
+	{
+		inModeTok := ""
+		for _, d := range base.Decls {
+			if d.Mode != "" && strings.HasPrefix(d.Tag, "token:") {
+				inModeTok = strings.TrimPrefix(d.Tag, "token:")
+			}
+		}
+		type ref struct{ kind, name string }
+		var refs []ref
+		for _, r := range []ref{{"token", tokN}, {"mode-token", inModeTok}, {"macro", macN}, {"external", extN}, {"rule", ruleN}, {"mode", modeOf}} {
+			if r.name != "" {
+				refs = append(refs, r)
+			}
+		}
+		for _, r := range refs {
+			for _, st := range sites {
+				if r.kind != "macro" {
+					addLex("macro-ref-to-"+r.kind, "WK = "+freshPat()+" "+r.name, st, -1)
+					addLex("macro-ref-in-macro-to-"+r.kind, "@macro WKM = "+freshPat()+" ("+r.name+")?", st, -1)
+				}
+				if r.kind != "mode" {
+					addLex("push-mode-to-"+r.kind, "WK = "+freshPat()+" @push_mode("+r.name+")", st, -1)
+					addLex("push-mode-frag-to-"+r.kind, "@frag "+freshPat()+" @discard @push_mode("+r.name+")", st, -1)
+				}
+				if r.kind != "token" && r.kind != "mode-token" && r.kind != "external" {
+					addLex("emit-to-"+r.kind, "@frag "+freshPat()+" @emit("+r.name+")", st, -1)
+				}
+			}
+			if r.kind == "macro" || r.kind == "mode" {
+				for f := 0; f < 2; f++ {
+					addPar("parser-term-to-"+r.kind, f, -1, "wk1 = "+tokN+" "+r.name)
+					addPar("parser-card-to-"+r.kind, f, -1, "wk2 = "+r.name+"* "+tokN)
+					addPar("parser-list-elem-to-"+r.kind, f, -1, "wk3 = @list("+r.name+", "+tokN+")")
+					addPar("parser-list-sep-to-"+r.kind, f, -1, "wk4 = @list("+tokN+", "+r.name+")")
+				}
+			}
+		}
+	}
 	// parser references
 	for f := 0; f < 2; f++ {
 		addPar("undef-token", f, -1, "u1 = "+tokN+" NOPE")
